@@ -653,7 +653,10 @@ pub fn generate(p: &GenParams, seed: u64) -> Case {
         };
         let mut seed_acc = AccountSeed { balance, nonce: r.below(3), code: None, storage: BTreeMap::new() };
         if prague && i < p.pre_delegated {
-            seed_acc.code = Some(delegation_code(layout.con(r.below(n_con))));
+            // in the refunder families half of the delegations point at the refunder: a delegated
+            // sender then bounces received value straight back to whoever paid it
+            let target = if p.refunder_contract && r.chance(1, 2) { layout.con(1) } else { layout.con(r.below(n_con)) };
+            seed_acc.code = Some(delegation_code(target));
             // delegated EOAs may carry storage of their own
             if r.chance(1, 2) {
                 seed_acc.storage.insert(U256::from(r.below(mix.slots)), U256::from(r.range(1, 5)));
@@ -757,6 +760,14 @@ pub fn generate(p: &GenParams, seed: u64) -> Case {
                 };
                 tx.kind = TxKind::Call(to);
                 tx.value = U256::from(r.below(3));
+            }
+        }
+        if p.reserve_shape && matches!(tx.kind, TxKind::Call(_)) && r.chance(1, 2) {
+            // top-level values of the same order as fees and as the values delegated code moves
+            // around (the reserve rule exempts exactly this one transfer)
+            tx.value = U256::from(r.below(6_000_000));
+            if p.refunder_contract && r.chance(1, 4) {
+                tx.kind = TxKind::Call(layout.con(1));
             }
         }
         if p.reborn_contract {
